@@ -623,6 +623,9 @@ func (fc *FnCtx) evalCall(x *ast.CallExpr, env *Env) Val {
 		}
 		v := arg(len(x.Args) - 1)
 		return Val{K: a.K, S: stor(a.S, idx, v.S)}
+	case "xor8", "and8", "or8":
+		// the 8-bit bitwise operators on two variables (uninterpreted, with the axioms of the prelude)
+		return intV(app(fn.Name, arg(0).S, arg(1).S), types.Typ[types.Uint8])
 	case "row":
 		// row(s): the backing array of slice s as a first-class integer array (element i of
 		// the slice is row(s)[off(s)+i]); for slices of integers, pointers or other references
